@@ -19,6 +19,7 @@ import Geodesy.Model.Ops.Laea
 import Geodesy.Model.Ops.Somerc
 import Geodesy.Model.Ops.Cart
 import Geodesy.Model.Ops.Lcc
+import Geodesy.Model.Ops.GridOps
 
 namespace Geodesy
 open Text
@@ -56,14 +57,17 @@ def builtin (ce : Ops.CtorEnv) (name : Str) : Option (Ctor R) :=
   else if name == S "molodensky" then some (Ops.Molodensky.new R ce)
   else if name == S "permtide" then some (Ops.Permtide.new R ce)
   else if name == S "lcc" then some (Ops.Lcc.new R ce)
+  else if name == S "gridshift" then some (Ops.Gridshift.new R ce)
+  else if name == S "deformation" then some (Ops.Deformation.new R ce)
+  else if name == S "deflection" then some (Ops.Deflection.new R ce)
   else none
 
 /-- names of the built-ins the model covers (besides `pipeline`) -/
 def modelled : List String :=
-  ["addone", "noop", "longlat", "latlon", "latlong", "lonlat", "stack", "push", "pop", "axisswap", "helmert", "adapt", "unitconvert", "merc", "webmerc", "omerc", "geodesic", "latitude", "curvature", "gravity", "dm", "dms", "tmerc", "utm", "btmerc", "butm", "laea", "somerc", "cart", "molodensky", "permtide", "lcc"]
+  ["addone", "noop", "longlat", "latlon", "latlong", "lonlat", "stack", "push", "pop", "axisswap", "helmert", "adapt", "unitconvert", "merc", "webmerc", "omerc", "geodesic", "latitude", "curvature", "gravity", "dm", "dms", "tmerc", "utm", "btmerc", "butm", "laea", "somerc", "cart", "molodensky", "permtide", "lcc", "gridshift", "deformation", "deflection"]
 
-/-- leaf semantics by constructor tag -/
-def sem : LeafSem R := fun t params dir data =>
+/-- leaf semantics by constructor tag; `genv` are the grids the context serves -/
+def sem (genv : Grid.GridEnv R) : LeafSem R := fun t params dir data =>
   if t == S "addone" then Ops.addoneSem dir data
   else if t == S "noop" then Ops.noopSem data
   else if t == S "axisswap" then Ops.axisswapSem R params dir data
@@ -87,6 +91,9 @@ def sem : LeafSem R := fun t params dir data =>
   else if t == S "molodensky" then Ops.Molodensky.sem params dir data
   else if t == S "permtide" then Ops.Permtide.sem params dir data
   else if t == S "lcc" then Ops.Lcc.sem params dir data
+  else if t == S "gridshift" then Ops.Gridshift.sem genv params dir data
+  else if t == S "deformation" then Ops.Deformation.sem genv params dir data
+  else if t == S "deflection" then Ops.Deflection.sem genv params dir data
   else if t == S "stack" || t == S "push" || t == S "pop" then Ops.placeholderSem data
   else (data, 0)
 
